@@ -176,6 +176,7 @@ class LoggedCtx(AsyncContext):
         self.npause = 0
         self.pause_failed = False
         self.by_block = False
+        self.in_exit = False
 
     def __enter__(self):
         self.by_block = True
@@ -186,10 +187,12 @@ class LoggedCtx(AsyncContext):
 
     def __exit__(self, ty, value, tb):
         self.by_block = True
+        self.in_exit = True
         try:
             return AsyncContext.__exit__(self, ty, value, tb)
         finally:
             self.by_block = False
+            self.in_exit = False
 
     def resume(self):
         self.T.ev.append({"EvResume": [list(self.tid), self.cid]})
@@ -211,6 +214,12 @@ class LoggedCtx(AsyncContext):
             if f is not None and "pause" in f and f["pause"][0] == self.npause:
                 self.pause_failed = True
                 raise self.T.err(f["pause"][1])
+        elif self.in_exit:
+            # fault {"exit": e}: the pause() that __exit__ makes when the block is left raises e (a teardown step that
+            # fails) - after doing its work, i.e. after the call was logged.  Scheduler-driven pauses are not affected.
+            f = self.fault
+            if f is not None and "exit" in f:
+                raise self.T.err(f["exit"])
 
 
 class HNonAsync(NonAsyncContext):
